@@ -5,6 +5,7 @@ package main
 import (
 	"fmt"
 	"hash/fnv"
+	"runtime/debug"
 	"syscall"
 	"unicode/utf16"
 	"unicode/utf8"
@@ -237,7 +238,77 @@ func regErr(err error) string {
 	return vh.ResErr(99)
 }
 
+// outsideProbe evaluates the three decoders on the value placed in front of two different tails
+// (zeros / 0xAA 0x55 ...), with the slice capped at the value's own length: "never reads outside the
+// value" means the results cannot depend on the bytes that follow it.
+var (
+	guard     []byte
+	guardPage int
+)
+
+func initGuard() {
+	ps := syscall.Getpagesize()
+	m, err := syscall.Mmap(-1, 0, 2*ps, syscall.PROT_READ|syscall.PROT_WRITE, syscall.MAP_ANON|syscall.MAP_PRIVATE)
+	if err != nil {
+		return
+	}
+	if syscall.Mprotect(m[ps:], syscall.PROT_NONE) != nil {
+		return
+	}
+	guard, guardPage = m, ps
+}
+
+func outsideProbe(ty uint32, d []byte) {
+	res := func(tail byte) (r string) {
+		buf := make([]byte, len(d)+16)
+		copy(buf, d)
+		for i := len(d); i < len(buf); i++ {
+			buf[i] = tail
+			if tail != 0 && i%2 == 1 {
+				buf[i] = tail ^ 0xFF
+			}
+		}
+		e := regedit.Entry{Name: "v", Type: ty, Data: buf[:len(d):len(d)]}
+		defer func() {
+			if x := recover(); x != nil {
+				r = "panic"
+			}
+		}()
+		s, e1 := e.ToString()
+		l, e2 := e.ToStringList()
+		v, e3 := e.ToInteger()
+		return fmt.Sprintf("%q %v | %q %v | %d %v", s, e1, l, e2, v, e3)
+	}
+	a, b := res(0), res(0xAA)
+	out.Count("entry-outside-probe", fmt.Sprintf("%d:%x", ty, d), len(d) >= 3)
+	// guard page: the value ends exactly at the end of a mapped page, the next page is PROT_NONE; a
+	// read of even one byte outside the value faults (made a recoverable panic by SetPanicOnFault)
+	if guard != nil && len(d) > 0 && len(d) <= guardPage {
+		v := guard[guardPage-len(d) : guardPage : guardPage]
+		copy(v, d)
+		func() {
+			old := debug.SetPanicOnFault(true)
+			defer debug.SetPanicOnFault(old)
+			defer func() {
+				if x := recover(); x != nil {
+					out.Fail("Entry.To* read beyond the end of the value (fault on the guard page behind it)", "entry-reads-outside",
+						map[string]interface{}{"fn": "Entry.To*", "type": ty, "data": d, "fault": fmt.Sprint(x)})
+				}
+			}()
+			e := regedit.Entry{Name: "v", Type: ty, Data: v}
+			e.ToString()
+			e.ToStringList()
+			e.ToInteger()
+		}()
+	}
+	if a != b {
+		out.Fail("Entry.To* depends on the bytes that FOLLOW the value (reads outside the value)", "entry-reads-outside",
+			map[string]interface{}{"fn": "Entry.To*", "type": ty, "data": d, "with_zero_tail": a, "with_aa55_tail": b})
+	}
+}
+
 func doEntry(ty uint32, d []byte) {
+	outsideProbe(ty, d)
 	e := regedit.Entry{Name: "v", Type: ty, Data: d}
 	desc := map[string]interface{}{"fn": "Entry.To*", "type": ty, "data": d}
 	cl := fmt.Sprintf("entry-type%d", ty)
@@ -315,6 +386,8 @@ func main() {
 			"exhaustive uint16-class sequences for the decoder, Go strings incl. invalid UTF-8, registry values of every type code and length 0..12, random tails; "+
 			"distinct = distinct Coq case term, non-trivial = non-empty input (registry: >= 3 data bytes)")
 	out.ShardSize = 1500
+	initGuard()
+	out.Extra("guard_page", guard != nil)
 	rng := vh.NewRand(fl.Seed)
 	thorough := fl.Tier == "thorough"
 
@@ -444,5 +517,14 @@ func main() {
 	doEntry(1, mk("C:\\Program Files"))
 	doEntry(2, mk("%SystemRoot%\\x")[:29])
 	doEntry(1, []byte{0x3d, 0xd8, 0x00, 0xde, 0x41})
+	// odd byte lengths of well-formed values (a trailing half unit), every string/list type
+	for _, ty := range []uint32{1, 2, 7} {
+		for _, v := range [][]byte{mk("a"), mk("a", "b"), mk("alpha", "beta"), append(mk("x"), 0, 0)} {
+			for cut := 0; cut <= 3 && cut < len(v); cut++ {
+				doEntry(ty, v[:len(v)-cut])
+				doEntry(ty, append(append([]byte(nil), v[:len(v)-cut]...), 0x41))
+			}
+		}
+	}
 	out.Finish()
 }
